@@ -93,8 +93,7 @@ var blob = func() []byte {
 }()
 
 type txKey struct {
-	src   bc.Hash
-	pos   uint64
+	c     coin // source (mux) id, position AND amount: different parents spending one coin share the mux id
 	heavy bool
 	salt  int
 	size  int
@@ -105,7 +104,7 @@ var txCache = map[txKey]*types.Tx{}
 // mkTx spends c into output 0 (OP_TRUE, the model's coin of this transaction); a heavy one carries a
 // second OP_TRUE output of 1 unit whose state data pads the transaction to `size` serialized bytes.
 func mkTx(c coin, heavy bool, salt, size int) *types.Tx {
-	k := txKey{c.sourceID, c.pos, heavy, salt, size}
+	k := txKey{c, heavy, salt, size}
 	if t, ok := txCache[k]; ok {
 		return t
 	}
